@@ -14,8 +14,10 @@ import Jamm.Proofs.TreeDBLemmas
 import Jamm.Proofs.EncodeViewLemmas
 import Jamm.Proofs.FileDBLemmas
 import Jamm.Proofs.TreeDBHistory
+import Jamm.Proofs.EndToEnd
 import Jamm.Proofs.CommitNeb
 import Jamm.Gen.Layout
+import Jamm.Gen.HashOrder
 set_option linter.unusedSectionVars false
 open Std
 
@@ -249,5 +251,27 @@ theorem new_database_is_good :
     TDB.AllInv ([([], { nextInt := 0, tree := TDB.newTree })] : TDB.DB Bytes Bytes) ∧
     TDB.AllNeb ([([], { nextInt := 0, tree := TDB.newTree })] : TDB.DB Bytes Bytes) :=
   TDB.empty_good
+
+/-! ## End to end through commit, close and reopen, at the level of file bytes -/
+
+/-- a history of transactions on a FILE: each transaction's write operations, then a copy-on-write commit (any data
+writes that keep the bytes the current state owns and leave the next database stored, then the sealed header into
+the other slot) whose stored database has the reference's contents after the transaction's operations.  Opening the
+file the history left behind — header choice, walk of every bucket from the root page, free-list page: what a fresh
+transaction in the same process or after close + reopen reads — shows a database whose logical contents (every bucket
+path with its counter and its entries in ascending order) are exactly the reference's after ALL operations of the
+history, in order.  The per-commit premise is what `whole_history_refines` proves of the commit model and what the
+run compares on every real commit; `Jamm.Props.C02` adds that every crash image in between shows the previous or the
+next of these states. -/
+theorem history_then_open_shows_reference_contents (pagesize : Nat)
+    (hrec : Gen.layout.pgPtr + Gen.layout.metaSize ≤ pagesize) {s : Src} {slot : Nat} {st : Opened} {ov : Nat → Nat}
+    {acc : List (TDB.Op Bytes Bytes)} {s' : Src} {slot' : Nat} {st' : Opened} {ov' : Nat → Nat}
+    (hslot : slot = 0 ∨ slot = 1) (h0 : Committed Gen.layout Gen.hashOrder pagesize ov s slot st)
+    (h : TxHistory Gen.layout Gen.hashOrder pagesize s slot st ov acc s' slot' st' ov')
+    (fuel : Nat) (hf : st'.view.weight ≤ fuel) :
+    ∃ o, openFile Gen.layout Gen.hashOrder pagesize fuel s' = some o ∧
+      o.contents = acc.foldl Spec.applyTOp st.contents :=
+  history_then_open Gen.layout Gen.hashOrder pagesize (by decide) (by decide) hrec (Nat.le_trans (by decide) hrec)
+    hslot h0 h fuel hf
 
 end Jamm.Props.C01
